@@ -148,6 +148,9 @@ def _mirsym():
             ["engine::operators::subpartition::subpartition"], bounds="6 (quick) / 11 (thorough) fixed run structures with up to 5 rows; second-key values symbolic, sorted within each run", spec=sm.SubpartitionOpSpec())
         add(f"{tag}/merge_partitioned", pid, "mirsym", Q, "merge_partitioned(partitioning, l, r, limit): inside every first-key run the second keys are merged stably (left before right on ties), ops records the interleaving, length == min(limit, total)",
             ["engine::operators::merge_partitioned::merge_partitioned"], bounds="6 (quick) / 11 (thorough) fixed run structures with up to 5 rows; second-key values and limit symbolic", spec=sm.MergePartitionedSpec())
+    for pid, tag in (("C02", "C02.d"), ("C04", "C04.e")):
+        add(f"{tag}/merge_deduplicate_partitioned", pid, "mirsym", Q, "merge_deduplicate_partitioned(partitioning, l, r): per first-key run the strictly increasing union of the second group keys; ops replay reproduces it and never merges across runs",
+            ["engine::operators::merge_deduplicate_partitioned::merge_deduplicate_partitioned"], bounds="7 (quick) / 11 (thorough) fixed run structures with up to 5 rows; second-key values symbolic, strictly sorted per side within a run", spec=sm.MergeDedupPartitionedSpec())
     for pid, tag in (("C02", "C02.b"), ("C04", "C04.d")):
         add(f"{tag}/merge_deduplicate", pid, "mirsym", Q,
             "merge_deduplicate on strictly increasing group keys: strictly increasing union, each key once; MergeOps replay reproduces it (MergeRight iff equal keys)",
@@ -198,6 +201,12 @@ def _mirsym():
             [f"syntax::parser::{w} (from the str::parse::<u64> call to return)"], bounds="str::parse::<u64> modelled by its contract: Ok(any u64) or Err; API replay with a 20-digit literal",
             spec=sl.ParseNumberSpec(w), stubs=["str::parse::<u64> -> Ok(symbolic) | Err"])
 
+    from .specs import datatypes as sdt
+    for pid, tag in (("C12", "C12.c"), ("C05", "C05.e")):
+        add(f"{tag}/slice_box", pid, "mirsym", Q, "Data::slice_box(from, to) (the final OFFSET/LIMIT cut of every result column): min(to, len) - from cells, cell i = row from+i, NULL flags carried over; impls: usize (all-NULL column), Vec<i64>, &[i64], NullableVec<i64>",
+            ["<usize as Data>::slice_box", "<Vec<T> as Data>::slice_box", "<&[T] as Data>::slice_box", "<NullableVec<T> as Data>::slice_box"],
+            bounds="from/to symbolic with from <= to, from <= len; all-NULL column: len symbolic; data columns: len in {0,1,3} (quick) / {0,1,2,3,5,9} (thorough), T = i64", spec=sdt.SliceBoxSpec(),
+            assumptions=["from <= to and from <= len (convert_to_output_format passes offset' = min(offset, len) and offset' + min(limit, len - offset'); that arithmetic is decided by C12.b)"])
     from .specs import wal as sw
     add("C08.a/wal_cursor", "C08", "mirsym", Q,
         "WAL cursor state machine on the real MetaStore methods, from an arbitrary state with earliest <= next: ids are handed out in order, a flush persists the end of the range it captured, after a clean restart exactly the segments written after that capture are replayed, none is deleted, and ids are never reused",
@@ -210,6 +219,10 @@ def _mirsym():
     add("C08.b/deserialize_cursor", "C08", "mirsym", Q, "MetaStore::deserialize initialises next_wal_id and earliest_unflushed_wal_id from the persisted cursor (two-point dataflow slice)",
         ["disk_store::meta_store::MetaStore::deserialize (get_next_wal_id block + MetaStore construction block)"], bounds="all u64 persisted values",
         spec=sw.DeserializeCursorSpec(), stubs=["capnp reader calls -> havoc", "the cursor local is written exactly once (checked syntactically on the MIR)"])
+    add("C08.c/recover_segment_decision", "C08", "mirsym", Q, "Storage::recover: a WAL segment found at start-up is replayed (registered, kept) iff id >= persisted cursor; only earlier segments are deleted/skipped; a read-only open never deletes; a replayed id is never handed out again",
+        ["disk_store::storage::Storage::recover (slice: comparison block to keep/delete/skip)", "disk_store::meta_store::MetaStore::register_wal_segment"], bounds="one segment, all (id, cursor) pairs below 2^63, readonly symbolic",
+        spec=sw.RecoverSliceSpec(), stubs=["prefix of recover (listing, thread pool, channel) skipped, its state havoc'd", "Vec::push / BlobWriter::delete / log::* -> end of slice"],
+        assumptions=["segment ids and the cursor stay below 2^63 (ids are handed out one by one from 0)"])
 
     from .specs import envelope as se
     add("C14.a/envelope_load", "C14", "mirsym", Q,
